@@ -52,7 +52,9 @@ var props = []PropSpec{
 		ID: "C08", Pkg: "./c08", ReplayPkg: "./cmd/rc08", Level: "model_checking",
 		Assumptions: append([]string{"inductive step: the counter pre-state is an arbitrary 32-bit value installed with the VerifSetSeq hook, so sessions of any length (including across the 2^32 wrap) reduce to the steps explored", "time.Now is a symbolic non-decreasing wall clock; the export time must lie between a reading taken before and one taken after SendSet", "failed sends are outside the statement (as the property says)"}, codecAssumptions...),
 		Harnesses: []HarnessSpec{
-			{Func: "Check_SeqStep", Reach: []string{"data", "template", "near-wrap", "empty-set"}, Tune: func(c *sym.Config, th bool) { c.ClockMode = "wall" },
+			{Func: "Check_SeqStepFixedClock", Reach: []string{"data", "template", "refresh"}, Vectors: 2,
+				Bounds: "the same steps with a concrete clock standing 600 ms into a second (rounding vs truncation of the export time)"},
+			{Func: "Check_SeqStep", Reach: []string{"data", "template", "near-wrap", "empty-set", "refresh"}, Tune: func(c *sym.Config, th bool) { c.ClockMode = "wall" },
 				Bounds: "1..2 (quick) / 1..3 (thorough) successive sends after a template, each a template set (with one or zero records) or a data set with 0..3 records; counter, observation domain, values and clock symbolic"},
 		},
 	},
@@ -177,6 +179,9 @@ var props = []PropSpec{
 			{Func: "Check_History", Reach: []string{"correlation-required", "no-correlation", "withheld", "merged", "exported", "retried", "dropped-after-retries"},
 				Tune:   func(c *sym.Config, th bool) { c.ClockMode = "frozen" },
 				Bounds: "histories of 3 (quick) / 4 (thorough) events from {record from source node, record from destination node, expiry scan after all deadlines} on one flow; flow type, egress and ingress rule action symbolic over all 256 values each"},
+			{Func: "Check_HistoryAfterRetry", Reach: []string{"correlation-required", "retried", "dropped-after-retries", "merged"},
+				Tune:   func(c *sym.Config, th bool) { c.ClockMode = "frozen" },
+				Bounds: "histories that start with a record of one node and an expiry scan, followed by all sequences of 2 (quick) / 3 (thorough) further events (total depth 4 / 5)"},
 		},
 	},
 	{
@@ -187,7 +192,7 @@ var props = []PropSpec{
 			"time is a 64-bit symbolic offset; every 'advance' is an arbitrary non-negative duration up to 100 s, TTL = 30 s",
 		}, codecAssumptions...),
 		Harnesses: []HarnessSpec{
-			{Func: "Check_Schedule", Reach: []string{"refresh", "data-accepted", "data-rejected", "fired", "expired", "used-after-ttl-before-timer-ran", "callback-found-refreshed-template", "done"},
+			{Func: "Check_Schedule", Reach: []string{"refresh", "replacement", "data-accepted", "data-rejected", "fired", "expired", "used-after-ttl-before-timer-ran", "callback-found-refreshed-template", "done"},
 				Tune:   func(c *sym.Config, th bool) { c.ClockMode = "frozen" },
 				Bounds: "all schedules of depth 5 (quick) / 6 (thorough) over {template/refresh, bad template, data, advance by symbolic d, fire a due armed timer, run a pending callback} on 2 keys (two template ids of one observation domain); all timing relations are the solver's"},
 			{Func: "Check_ScheduleAfterLifetime", Reach: []string{"refresh", "expired", "fired", "callback-found-refreshed-template", "done"},
